@@ -204,7 +204,7 @@ def fixed_histories():
         out.append(h("f-timeout-%d" % k, one, [
             {"t": t, "d": 0, "calls": [off, {"op": "resolve_hostname", "host": "MyHost.local.", "timeout": to, "ch": "h1"}]},
             {"run_until": t + 20000, "max_iters": 300}]))
-    # late wake-up at the deadline (finding C17-late-wake-requery)
+    # late wake-up at the deadline (former finding C17-late-wake-requery-after-timeout; also corpus/C17.cases)
     out.append(h("f-late", one, [
         {"t": t, "d": 0, "calls": [off, {"op": "resolve_hostname", "host": "MyHost.local.", "timeout": 1001, "ch": "h1"}]},
         {"t": t + 1001, "d": 0}, {"run_until": t + 20000, "max_iters": 300}]))
@@ -232,6 +232,33 @@ def fixed_histories():
         {"t": t, "d": 0, "calls": [off, {"op": "resolve_hostname", "host": "Box9.local.", "timeout": 10000, "ch": "h1"}]},
         {"t": t + 1500, "d": 0, "calls": [{"op": "resolve_hostname", "host": "bOX9.local.", "timeout": 3000, "ch": "h2"}]},
         {"run_until": t + 20000, "max_iters": 300}]))
+    # dual-stack host: A and AAAA learned on one interface; 1.5 s later a cache-flush A alone must
+    # not touch the AAAA record (the flush pass compares the record type); later a flush AAAA alone
+    out.append(h("f-dualstack-flush", two, [
+        {"t": t, "d": 0, "calls": [off, {"op": "resolve_hostname", "host": "Dual.local.", "ch": "h1"}]},
+        {"t": t + 10, "d": 0, "dgrams": [dg([L.rec_addr(1, "dual.local.", "192.168.1.20", 120),
+                                             L.rec_addr(1, "dual.local.", "fe80::1", 120)])]},
+        {"t": t + 1600, "d": 0, "dgrams": [dg([L.rec_addr(1, "dual.local.", "192.168.1.21", 120, flush=True)])]},
+        {"t": t + 2700, "d": 0}, {"t": t + 4000, "d": 0},
+        {"t": t + 5000, "d": 0, "dgrams": [dg([L.rec_addr(1, "dual.local.", "fe80::2", 120, flush=True)])]},
+        {"t": t + 6100, "d": 0}, {"t": t + 8000, "d": 0},
+        {"run_until": t + 200000, "max_iters": 300}]))
+    # goodbye, then the same record announced again within the goodbye second (counts as new)
+    # and once more after it (a plain refresh)
+    out.append(h("f-goodbye-revive", one, [
+        {"t": t, "d": 0, "calls": [off, {"op": "resolve_hostname", "host": "a.local.", "ch": "h1"}]},
+        {"t": t + 10, "d": 0, "dgrams": [dg([L.rec_addr(1, "A.local.", "192.168.1.20", 120)])]},
+        {"t": t + 3000, "d": 0, "dgrams": [dg([L.rec_addr(1, "A.local.", "192.168.1.20", 0)])]},
+        {"t": t + 3400, "d": 0, "dgrams": [dg([L.rec_addr(1, "A.local.", "192.168.1.20", 120)])]},
+        {"t": t + 5000, "d": 0, "dgrams": [dg([L.rec_addr(1, "A.local.", "192.168.1.20", 120)])]},
+        {"run_until": t + 200000, "max_iters": 300}]))
+    # mixed-case name with a timeout, retransmission times around the deadline, late and exact
+    for k, (to, late) in enumerate([(3000, 0), (3001, 0), (3001, 1), (7000, 0), (6999, 2), (2999, 500)]):
+        steps = [{"t": t, "d": 0, "calls": [off, {"op": "resolve_hostname", "host": "MiXeD-Case.local.", "timeout": to, "ch": "h1"}]}]
+        if late:
+            steps += [{"t": t + 1000, "d": 0}, {"t": t + to + late, "d": 0}]
+        steps.append({"run_until": t + 40000, "max_iters": 300})
+        out.append(h("f-mixed-timeout-%d" % k, one, steps))
     # address in the additional section of somebody else's PTR answer: not for us
     out.append(h("f-notforus", one, [
         {"t": t, "d": 0, "calls": [off, {"op": "resolve_hostname", "host": "host.local.", "ch": "h1"}]},
@@ -372,9 +399,7 @@ def nontrivial(line, result):
 
 
 def known_class(line, impl_result, mon_result):
-    if mon_result.startswith("FAIL[late-rerun-after-timeout]"):
-        return "C17-late-wake-requery-after-timeout"
-    return None
+    return None     # no registered finding (C17-late-wake-requery-after-timeout was repaired by a4675d4)
 
 
 def shrink(line, still_bad):
